@@ -264,6 +264,20 @@ func builderPairingN(c *Ctx, rule string, only ...string) {
 					bad = append(bad, "key "+kv.Key+" is emitted but not in the alias table")
 					continue
 				}
+				// polarity: a key is not written where its source is known to be absent (the guard of an optional field
+				// must be the positive presence test)
+				if strings.HasPrefix(src, ".") {
+					parts := strings.Split(strings.TrimPrefix(src, "."), ".")
+					prefix := x
+					for _, part := range parts {
+						prefix += "." + part
+						for _, f := range kv.Facts {
+							if f == prefix+"==nil" || f == "len("+prefix+")==0" || f == prefix+`==""` {
+								bad = append(bad, "key "+kv.Key+" is written on a path where "+prefix+" is known to be absent or empty (`"+f+"`)")
+							}
+						}
+					}
+				}
 				folded := containsStr(kv.Facts, x+".IgnoreCase")
 				ok := false
 				switch {
